@@ -81,6 +81,12 @@ def histories(tier, rnd):
         for s2 in singles + lists:
             hs.append((s1, s2))
     hs.append((("to_proto", (3,)),))
+    # an unrelated look-alike design exported first / between the calls on the sub-modules
+    hs.append((("lookalike", (0,)),))
+    for s1 in singles:
+        hs.append((("lookalike", (0,)), s1))
+        hs.append((s1, ("lookalike", (0,))))
+        hs.append((s1, ("lookalike", (0,)), s1))
     hs.append((("elaborate", (3,)), ("elaborate", (3,))))
     hs.append((("netlist", (3,)), ("to_proto", (2,))))
     n = 1500 if tier == "thorough" else 150
@@ -90,8 +96,52 @@ def histories(tier, rnd):
     return hs
 
 
+def lookalike():
+    """an UNRELATED design exported in between: modules with the same names and port names as the DAG's, but another
+    bundle type behind `bp` / `b`, and designer names equal to the names elaboration invents (so that flatname has to add
+    underscores here - which must not be remembered anywhere)"""
+    import hdl21 as h
+
+    @h.bundle
+    class BnOther:
+        y = h.Signal()
+        z = h.Signal(width=3)
+        x = h.Signal(width=2)
+    E = h.ExternalModule(name="HE", port_list=[h.Inout(name="a", width=2), h.Inout(name="z")], desc="", domain="hh2")
+    Leaf = h.Module(name="HLeaf")
+    Leaf.p = h.Port(width=2)
+    Leaf.q = h.Port()
+    Leaf.e = E()(a=Leaf.p, z=Leaf.q)
+    BLeaf = h.Module(name="HBLeaf")
+    BLeaf.bp = BnOther(port=True)
+    BLeaf.o = h.Output()
+    BLeaf.e = E()(a=BLeaf.bp.x, z=BLeaf.bp.y)
+    Mid = h.Module(name="HMid")
+    Mid.b = BnOther(port=True)
+    Mid.w = h.Port()
+    Mid.l1 = BLeaf(bp=Mid.b, o=Mid.w)
+    Mid.s = h.Signal(width=2)
+    Mid.add(h.Signal(name="l2_q"))              # collides with the implicit signal behind `l2.q`
+    Mid.add(h.Signal(name="b_x", width=1))      # collides with a flattened member of `b`
+    Mid.l2 = Leaf(p=Mid.s)
+    Mid.l3 = Leaf(p=Mid.s, q=Mid.l2.q)
+    Top = h.Module(name="HTop")
+    Top.bb = BnOther()
+    Top.add(h.Signal(name="bb_y"))
+    Top.add(h.Signal(name="m1_w"))
+    Top.m1 = Mid(b=Top.bb)
+    Top.m2 = Mid(b=Top.bb, w=Top.m1.w)
+    Top.arr = 2 * Leaf()(p=Top.bb.x, q=h.NoConn())
+    try:
+        h.to_proto(Top)
+    except Exception:
+        pass
+
+
 def do(action, objs):
     import hdl21 as h
+    if action == "lookalike":
+        return lookalike()
     arg = objs[0] if len(objs) == 1 else list(objs)
     if action == "elaborate":
         h.elaborate(arg)
@@ -220,7 +270,9 @@ def run(ctx):
     ctx.run_bounded("call-histories", cases, lambda c: check_history(c, refs),
                     rule="4 design DAGs (shared children, bundle ports, port references, arrays, anonymous bundles) x "
                          "histories of elaborate/to_proto/netlist calls on sub-modules and lists of them before "
-                         "exporting the top: exhaustive 1- and 2-call histories plus seeded random ones of 2-4 calls; "
+                         "exporting the top: exhaustive 1- and 2-call histories plus seeded random ones of 2-4 calls, and an unrelated "
+                         "look-alike design (same module / port names, another bundle type, designer names forcing "
+                         "underscore suffixes) exported first or in between; "
                          "oracle: the history-free export of a fresh build; then export again (idempotence); distinct = "
                          "(design, history); non-trivial = history touches a sub-module",
                     bound="<=4 modules, <=4 prior calls", key_of=lambda c: (c[0], c[2]),
